@@ -68,6 +68,7 @@ def run_shard(shard, acc):
         elif k == 'strings':
             strings(bs, acc)
             varlen(bs, acc)
+            bits_tokens(bs, acc)
         elif k == 'assign':
             assign(bs, acc)
         elif k == 'array':
@@ -257,6 +258,33 @@ def varlen(bs, acc):
             got = obs(lambda: bs.Bits(**{name: v}), lambda r: r.bin)
             judge(acc, 'create', ('ok', code), got, dict(dtype=name, value=v, route='kw', group='varlen|ok'), snip_create(f"bitstring.Bits({name}={v})", ('ok', code)))
     acc.sample(dict(event="Bits(ue=3, length=5) -> CreationError although the codeword for 3 has 5 bits"))
+
+
+def bits_tokens(bs, acc):
+    """The bits / bytes / pad tokens: a stated length that disagrees with the value (zero and non-zero) through every route."""
+    cases = []
+    for n in (0, 1, 3, 8):
+        for val in ('', '0b1', '0b101', '0xff', '0b00000000'):
+            vb = {'': '', '0b1': '1', '0b101': '101', '0xff': '11111111', '0b00000000': '00000000'}[val]
+            cases.append((n, val, vb))
+    for n, val, vb in cases:
+        ok = len(vb) == n
+        exp = ('ok', vb) if ok else 'reject'
+        acc.state(('bits', n, val))
+        rts = [('kw', lambda: bs.Bits(bits=val, length=n), f"bitstring.Bits(bits={val!r}, length={n})"), ('token', lambda: bs.BitArray(f'bits:{n}={val}') if val else bs.BitArray(f'bits:{n}='), f"bitstring.BitArray('bits:{n}={val}')"),
+               ('pack', lambda: bs.pack(f'bits:{n}', val), f"bitstring.pack('bits:{n}', {val!r})"), ('pack-kwlen', lambda: bs.pack('bits:k', val, k=n), f"bitstring.pack('bits:k', {val!r}, k={n})"),
+               ('pack-kwval', lambda: bs.pack(f'bits:{n}=v', v=val), f"bitstring.pack('bits:{n}=v', v={val!r})"), ('pack-int-token', lambda: bs.pack(f'{n}', val), f"bitstring.pack('{n}', {val!r})"),
+               ('pack-bitsobj', lambda: bs.pack(f'bits:{n}', bs.Bits(bin=vb)), f"bitstring.pack('bits:{n}', bitstring.Bits(bin={vb!r}))"),
+               ('build', lambda: bs.Dtype('bits', n).build(val), f"bitstring.Dtype('bits', {n}).build({val!r})"),
+               ('pack-second', lambda: bs.pack(f'u4, bits:{n}', 5, val)[4:], f"bitstring.pack('u4, bits:{n}', 5, {val!r})[4:]")]
+        for rname, th, src in rts:
+            if rname == 'token' and not val:
+                continue
+            if rname == 'kw' and n == 0 and False:
+                continue
+            got = obs(th, lambda r: r.bin)
+            judge(acc, 'token', exp, got, dict(dtype='bits', n=n, value=val, route=rname, group=f'bits|{rname}'), snip_create(src, exp))
+    acc.sample(dict(event="pack('bits:0', '0b1') -> CreationError; pack('bits:3', '0b101') -> 101"))
 
 
 def _seta(bs, name, v):
